@@ -7,6 +7,7 @@ from __future__ import annotations
 
 import random
 import re
+import sys
 
 from ..gen import tagexpr as T
 
@@ -30,7 +31,7 @@ ASSUMPTIONS = [
 ]
 REQUIRED = {"v2.meaning": {"quick": 3000, "thorough": 100000}, "v2.print_roundtrip": {"quick": 3000, "thorough": 100000},
             "v2.config_substitution": 100, "v2.empty_selects_all": 3, "v2.list_form": 300, "v2.wip_adds_wip_term": 100, "v2.config_file_tags": 100, "v2.meaning_for_special_tag_names": 400, "v2.list_form_default_protocol": 500, "v2.meaning_for_any_iterable_of_tags": 1000}
-REQUIRED_SEEN = {"terms_given_as": ["list", "tuple"], "command_line_string": ["with_backslash", "without_backslash"], "protocol_given_by": ["name_in_the_file", "keyword"], "tag_name_class": ["compatibility_characters", "needs_escape"], "list_terms_shape": ["same_words_other_parentheses"], "console_encoding": ["cp1252", "latin-1", "cp850", "ascii", "utf-8"],
+REQUIRED_SEEN = {"terms_given_as": ["list", "tuple"], "tags_help_stdout": ["terminal"], "command_line_string": ["with_backslash", "without_backslash"], "protocol_given_by": ["name_in_the_file", "keyword"], "tag_name_class": ["compatibility_characters", "needs_escape"], "list_terms_shape": ["same_words_other_parentheses"], "console_encoding": ["cp1252", "latin-1", "cp850", "ascii", "utf-8"],
                  "tags_given_as": ["generator", "iter", "map", "tuple", "frozenset", "dict_keys", "reversed"], "default_protocol_list_shape": ["only_single_tags"], "config_list_shape": ["placeholder_after_plain_part", "other"], "config_file_kind": ["toml", "ini"], "config_file_tag_names": ["with_hash_character", "ordinary"],
                  "config_file_mode": ["none", "plain", "placeholder", "placeholder_and_plain", "wip"]}
 EXHAUSTIVE = {"quick": True, "thorough": True}
@@ -301,6 +302,76 @@ def check_string_command_line(lab, mon, rng):
                     lab.P.use(lab.P.DEFAULT)
         else:
             lab.P.use(saved)
+
+
+def tags_help_on_a_terminal(lab, mon, rng):
+    """`behave --tags=... --tags-help` prints the expression in force; with stdout a TERMINAL of any width (a pty), or a pipe, the printed
+    text parsed again means the same formula (dashed tag names, long expressions)."""
+    import os
+    import pty
+    import fcntl
+    import termios
+    import struct
+    import subprocess
+    import tempfile
+    import shutil
+    from .. import core
+    names = ["known-issue", "slow-running-test", "x-y", "a", "not-yet-implemented", "k=v"]
+    ast = T.random_tree(rng, names, rng.choice([2, 3]), nary=True)
+    text = T.render_v2(ast, rng, "full", rng.choice([True, False]))
+    cols = rng.choice([None, 40, 48, 56, 64, 80])
+    root = tempfile.mkdtemp(prefix="bvm-c07-help-")
+    master = slave = None
+    try:
+        env = {"PATH": os.environ.get("PATH", "/usr/bin:/bin"), "HOME": root, "PYTHONPATH": core.REPO, "PYTHONIOENCODING": "utf-8", "LANG": "C.UTF-8"}
+        cmd = [sys.executable, "-m", "behave", "--tags=%s" % text, "--tags-help"]
+        if cols is None:
+            p = subprocess.run(cmd, cwd=root, env=env, capture_output=True, timeout=60, stdin=subprocess.DEVNULL)
+            out = p.stdout.decode("utf-8", "replace")
+        else:
+            master, slave = pty.openpty()
+            fcntl.ioctl(slave, termios.TIOCSWINSZ, struct.pack("HHHH", 24, cols, 0, 0))
+            proc = subprocess.Popen(cmd, cwd=root, env=env, stdout=slave, stderr=subprocess.DEVNULL, stdin=subprocess.DEVNULL)
+            os.close(slave)
+            slave = None
+            chunks = []
+            while True:
+                try:
+                    data = os.read(master, 65536)
+                except OSError:
+                    break
+                if not data:
+                    break
+                chunks.append(data)
+            proc.wait(timeout=60)
+            out = b"".join(chunks).decode("utf-8", "replace").replace("\r\n", "\n")
+    except Exception as ex:
+        mon.note("tags-help subprocess failed: %r (inconclusive case)" % (ex,))
+        return
+    finally:
+        for fd in (master, slave):
+            if fd is not None:
+                try:
+                    os.close(fd)
+                except OSError:
+                    pass
+        shutil.rmtree(root, ignore_errors=True)
+    case = {"kind": "tags-help", "text": text, "terminal_columns": cols}
+    mon.case(case, True)
+    mon.seen("tags_help_stdout", "pipe" if cols is None else "terminal")
+    marker = "CURRENT TAG_EXPRESSION:"
+    if marker not in out:
+        mon.check("v2.print_roundtrip", False, dict(case=case, error="no %r line in the output" % marker, output=out[-300:]))
+        return
+    shown = out.split(marker, 1)[1]
+    shown = shown.split("\n  means:", 1)[0].strip()
+    want = T.truth_table(ast, T.subsets(names) if False else list(T.subsets(names)))
+    try:
+        e2 = lab.make(shown, lab.P.V2)
+        got = T.truth_table_of(e2.check, list(T.subsets(names)))
+        mon.check("v2.print_roundtrip", got == want, lambda: dict(case=case, printed=shown, got=got, want=want))
+    except Exception as ex:
+        mon.check("v2.print_roundtrip", False, dict(case=case, printed=shown, error=repr(ex)))
 
 
 def check_lookalike_terms(lab, mon, rng):
@@ -593,6 +664,8 @@ def run(spec, mon):
             check_config_files(lab, mon, rng, directed=True)
         check_lookalike_terms(lab, mon, rng)
         check_string_command_line(lab, mon, rng)
+        if j % 10 == 3:
+            tags_help_on_a_terminal(lab, mon, rng)
         for label in sorted(NAME_CLASSES):
             check_name_class(lab, mon, rng, label)
         check_print_on_legacy_console(lab, mon, rng)
